@@ -51,11 +51,6 @@ var knownProbes = []knownProbe{
 		Check: func(o Obs) (bool, string) {
 			return !traceHas(o, "cb:probe(i:1)"), fmt.Sprintf("a context variable bound to the loop counter at i == 1 reads %v after the loop (it holds a pointer to the counter cell)", o.Trace)
 		}},
-	{ID: "D27-quoted-arg-split", Props: []string{"C17"},
-		Prog: "probe(\"a,b\")\n", Doc: `{}`,
-		Check: func(o Obs) (bool, string) {
-			return !traceHas(o, "cb:probe(B:a,b)"), fmt.Sprintf("a quoted argument containing a comma reached the callback as %v", o.Trace)
-		}},
 	{ID: "D30-ctx-getter", Props: []string{"C19"},
 		Prog: "ctx.x = atoi(jso.n)\nprobe(x)\n", Doc: `{"n":"12"}`,
 		Check: func(o Obs) (bool, string) {
@@ -64,8 +59,7 @@ var knownProbes = []knownProbe{
 }
 
 // D25 (index past the end of an array that is not the first at its depth reads
-// foreign entries in vector.Node.Get) and D32 (a literal containing `for ` /
-// `if ` is parsed as a loop / condition) are probed separately below.
+// foreign entries in vector.Node.Get) is probed separately below.
 
 func runKnownProbes(prop string, sum *Summary) {
 	for _, kp := range knownProbes {
@@ -100,12 +94,6 @@ func runKnownProbes(prop string, sum *Summary) {
 			if o.Res == "(Some EPanic)" || o.Fields[0][0] != "S:" {
 				sum.Known = append(sum.Known, KnownHit{ID: "D25-vector-index", What: "jso.y.2 on {\"x\":[1],\"y\":[7,8],\"z\":[9]} (index past the end of an array that is not the first at its depth) gave " + o.Res + " " + o.Fields[0][0] + " " + o.ParseErr})
 			}
-		}
-	case "C09":
-		// D32
-		o, _ := realParse([]byte("obj.Id = \"wait for it\"\n"))
-		if o.Class != "ok" || !strings.Contains(o.Ser, "wait for it") || strings.HasPrefix(o.Ser, "1[N1;") || strings.HasPrefix(o.Ser, "1[N2;") {
-			sum.Known = append(sum.Known, KnownHit{ID: "D32-literal-keyword", What: "a literal containing `for ` makes the line a loop header: Parse gives " + o.Class + " " + o.Err})
 		}
 	case "C11":
 		// D44: a negative JSON number into an unsigned field allocates inside strconv
